@@ -704,8 +704,38 @@ func directCallees(c *Ctx, fn *ssa.Function, out map[string]bool, mods map[*ssa.
 // stores of an if/else into one, changes nothing, while dropping the same test on another value does.
 func directCalleeCounts(c *Ctx, fn *ssa.Function, out map[string]bool, counts map[string]int, mods map[*ssa.Function]bool) {
 	distinct := map[string]bool{}
+	// names of effect-free callees called by fn (computed on demand below)
+	pureNames := map[string]bool{}
+	var mark func(f *ssa.Function)
+	mark = func(f *ssa.Function) {
+		for _, b := range f.Blocks {
+			for _, in := range b.Instrs {
+				if ci, ok := in.(ssa.CallInstruction); ok {
+					if cal := ci.Common().StaticCallee(); cal != nil && cal.Parent() == nil && c.effectFree(cal) {
+						if n := calleeName(c, ci.Common()); n != "" {
+							pureNames[n] = true
+						}
+					}
+				}
+			}
+		}
+		for _, an := range f.AnonFuncs {
+			mark(an)
+		}
+	}
+	if counts != nil {
+		mark(fn)
+	}
 	bump := func(n, desc string) {
 		if counts == nil || distinct[n+"|"+desc] {
+			return
+		}
+		// a getter that writes, sends and starts nothing may be read once instead of twice when both reads are known
+		// to agree; the forms of a private copy merge freely: for those only presence is recorded
+		if n == "clone" || pureNames[n] {
+			if counts[n] == 0 {
+				counts[n] = 1
+			}
 			return
 		}
 		distinct[n+"|"+desc] = true
